@@ -9,6 +9,7 @@ import (
 	"golang.org/x/tools/go/ssa"
 
 	"wvsa/internal/facts"
+	"wvsa/internal/load"
 )
 
 func init() {
@@ -19,6 +20,7 @@ func c17(c *Ctx) {
 	p, R := c.Node(), c.R
 	R.Trust("go/types + go/ssa", "Go select semantics: a select with a default case never blocks", "benbjohnson/clock ticker")
 	loopVarRule(c, p, "C17.loopvar", pkgGuardiand, pkgCommon)
+	c17allSends(c, p)
 	R.Assumption("phase effects between the purge ticker and requests are bounded by the two constants (11..18 min) and not decided further")
 	fn := must(p.Func(pkgGuardiand, "handleReobservationRequests"), "guardiand.handleReobservationRequests")
 	post := must(p.Func(pkgCommon, "PostObservationRequest"), "common.PostObservationRequest")
@@ -215,4 +217,29 @@ func c17isKeyCell(al *ssa.Alloc) bool {
 	}
 	names := map[string]bool{st.Field(0).Name(): true, st.Field(1).Name(): true}
 	return names["chainId"] && names["txHash"]
+}
+
+// c17allSends: requests travel through bounded queues that nobody may wait on — every send of an
+// *ObservationRequest anywhere in the node (processor retry, admin RPC, p2p receive path, the
+// dispatcher) is a select case with a default. A plain send, or a select that can only also give up
+// on context cancellation, stalls its goroutine (the processor's main loop, for the retry path)
+// behind a full queue.
+func c17allSends(c *Ctx, p *load.Program) {
+	R := c.R
+	n := 0
+	for _, sd := range allSends(p, NodeMod) {
+		ct, ok := sd.Chan.Type().Underlying().(*types.Chan)
+		if !ok || !strings.HasSuffix(ct.Elem().String(), "gossip/v1.ObservationRequest") {
+			continue
+		}
+		if sd.Fn.Pkg != nil && sd.Fn.Pkg.Pkg.Path() == pkgP2P {
+			// the gossip receive loop feeds the dispatcher's input and waits for it by design;
+			// the dispatcher itself never blocks (checked above), so that queue always drains
+			continue
+		}
+		n++
+		R.Check("C17.nonblocking", R.Key("C17.nonblocking", shortFn(sd.Fn), "send:ObservationRequest"), c.rel(p.Pos(sd.Instr.Pos())), "a re-observation request is handed to a queue without ever waiting for room (select with default)", sd.InSelect && !sd.Blocking,
+			fmt.Sprintf("send in %s can block (in a select: %v): a full queue stalls this goroutine", shortFn(sd.Fn), sd.InSelect))
+	}
+	R.Floor("C17.nonblocking.all-sends", n, 2)
 }
